@@ -1,4 +1,4 @@
-import VelaVerif.Lemmas.SoftmaxExecL
+import VelaVerif.Lemmas.SoftmaxRowL
 import VelaVerif.Spec.SoftmaxRef
 /-!
 # C01 — Vela's 8-bit SOFTMAX decomposition (`softmax.py`, `get_graph_8bit`) against the TFLite integer kernel
@@ -7,26 +7,31 @@ Model: `Model/SoftmaxGraph.lean` (`graph8`: the 31 passes as the graph carries t
 execution: `Spec/SoftmaxExec.lean` (`runGraph8`: the lowered program on one row, per element the functions of
 `Spec/NpuWide.lean` the executor of `check_C01` runs); reference: `Spec/SoftmaxKernel.lean` (`softmaxRow8`).
 
-Full statement wanted (NOT proved as a whole, see `design.d/C01.md`):
+Main theorem, PROVED (`softmax8_decomposition_eq_reference`): for every parameter set of an 8-bit type (`qmax = qmin + 255` inside the
+int16 range — int8 and uint8 —, output zero point = type minimum as TFLite requires), every multiplier / left shift, every
+`diff_min ≤ 0` and every row of 1 … 511 codes of the type,
 
-    softmax8_decomposition_eq_reference : ∀ P xs mult ls diffMin, xs ≠ [] → xs.length ≤ 511 → (∀ x ∈ xs, P.qmin ≤ x ∧ x ≤ P.qmax) →
-      P.qmax = P.qmin + 255 → P.zpOut = P.qmin → diffMin ≤ 0 →
-      runGraph8 P (SoftmaxKernel.expTable8 mult ls diffMin) xs = .ok (SoftmaxKernel.softmaxRow8 xs mult ls diffMin P.qmin P.qmax)
+    runGraph8 P (SoftmaxKernel.expTable8 mult ls diffMin) xs = .ok (SoftmaxKernel.softmaxRow8 xs mult ls diffMin P.qmin P.qmax)
 
-(the bound 511 is needed: from a sum of exponentials of 2^28 = 512.0 in Q12.19 on the reference calls `RoundingDivideByPOT` with
-an exponent above 31 — `softmax8_depth512_witness`.)  Proved here, for all operand values:
+bit for bit (the bound 511 is needed: from a sum of exponentials of 2^28 = 512.0 in Q12.19 on the reference calls
+`RoundingDivideByPOT` with an exponent above 31 — `softmax8_depth512_witness`).  The table hypothesis is "the LUT tensor is the
+reference's table of exponentials"; `softmax8_decomposition_eq_reference_generated_table` restates it for the table C19 proves
+`generate_exp_table` to produce (`SoftmaxRef.expTable`, `C19.softmax_exp_table_spec`; `live_lut_is_exp_table` ties the graph's LUT
+tensor to that function).  Ingredients:
 
 * the program the theorems are about is the program the live function builds (`graph8_is_live_graph_*`, by `decide` over the
   rows regenerated on every run) and its lowering is `prog8` (`lowered_graph8`);
+* passes 0 – 9 (`Lemmas/SoftmaxRowL.head_chain`): maximum (depthwise max pool), SUB + table lookup = `exp_on_negative_values` of the
+  rescaled difference (0 below `diff_min`), SHR 12 = `Rescale<12>`, REDUCE_SUM = the reference's wrapping int32 accumulation (no wrap:
+  each term ≤ 2^19, ≤ 511 terms), CLZ = `CountLeadingZeros` ∈ [4, 12], SUB / SHL / SUB / SHL = `(sum << headroom) − 2^31`;
 * **passes 10 – 28 = gemmlowp `one_over_one_plus_x_for_x_in_0_1`** (`RoundingHalfSum`, the constants 48/17 and −32/17, three
   Newton–Raphson iterations, the final `Rescale<0>`), at the level of values (`passes10_28_eq_one_over_one_plus_x`) and through
   the interpreter on the program (`softmax8_reciprocal_passes_eq_reference_partial`); the ranges that make the wrapping
   additions of the reference and the saturating ones of the NPU agree are PROVED from the range of pass 9's result
   (`nr_invariant_step`), not assumed;
-* the per-step evaluation lemmas of the other passes' shapes live in `Lemmas/SoftmaxExecL.lean` (`eval_shr_vs` = pass 2,
-  `eval_mul_vs` = pass 29, `eval_sub_ss` / `eval_shl_ss` = passes 5 – 9); `Props/C01Wide.softmax_pass29_30` is the value identity of
-  passes 29 + 30.  Their composition with passes 0 – 9 (maximum, table lookup, sum without wrap for ≤ 4095 elements, headroom) is
-  left undone.
+* passes 29 – 30 (`tail_chain`, `tail_value`, from `C01Wide.shr_natural_eq_rdivpot` / `npu_mul31`): MUL shift 31 + SHR NATURAL by
+  `35 − headroom` ∈ [23, 31] + zero point + clamp = `RoundingDivideByPOT(SRDHM(scale, exp), num_bits_over_unit + 31 − 8) + min`
+  clamped.
 -/
 namespace VelaVerif.Props.C01Softmax
 open VelaVerif VelaVerif.Requant VelaVerif.SoftmaxGraph VelaVerif.SoftmaxExec VelaVerif.Lemmas.SoftmaxArith
@@ -70,8 +75,8 @@ theorem passes10_28_eq_one_over_one_plus_x (a : Int) (h0 : 0 ≤ a) (h1 : a ≤ 
 /-- **through the interpreter** (partial: passes 10 – 28 of 31): on every environment whose entry 9 — the OFM of pass 9, the
     normalised sum minus one — is a per-position value `a ∈ [0, 2^31)`, the steps 10 – 28 of the lowered program all succeed,
     add 19 per-position values and the last one, the OFM of pass 28, is the reference's `one_over_one_plus_x_for_x_in_0_1(a)`.
-    Missing for the full statement: passes 0 – 9 establish that entry 9 is `sum·2^headroom_plus_one − 2^31` with the
-    reference's sum, and passes 29 – 30 (`C01Wide.softmax_pass29_30`) turn the reciprocal into the outputs. -/
+    (Kept under its `_partial` name: it is the middle segment; `softmax8_decomposition_eq_reference` below composes it with
+    passes 0 – 9, which establish that entry 9 is `sum·2^headroom − 2^31` with the reference's sum, and passes 29 – 30.) -/
 theorem softmax8_reciprocal_passes_eq_reference_partial (P : Params) (table xs : List Int)
     (v0 v1 v2 v3 v4 v5 v6 v7 v8 : Val) (a : Int) (h0 : 0 ≤ a) (h1 : a ≤ 2147483647) :
     ∃ vs : List Val, vs.length = 18 ∧
@@ -85,6 +90,43 @@ theorem prog8_segments (P : Params) :
     prog8 P = headProg P ++ recipProg P ++ tailProg P ∧ (headProg P).length = 10 ∧ (recipProg P).length = 19 ∧
       (tailProg P).length = 2 := ⟨rfl, rfl, rfl, rfl⟩
 
+/-! ## the whole row -/
+
+/-- **the 31-pass decomposition = the TFLite 8-bit kernel, bit for bit, on every row of 1 … 511 codes**: `P` any parameter set of an
+    8-bit type (256 codes `qmin … qmax` inside the int16 range the ACTIVATION registers are limited to: int8, uint8), output zero
+    point = `qmin` (TFLite's requirement on a SOFTMAX output), any input zero point, any multiplier and left shift, any
+    `diff_min ≤ 0`; the table is the reference's table of exponentials (see `…_generated_table` for the generated one) -/
+theorem softmax8_decomposition_eq_reference (P : Params) (xs : List Int) (mult : Int) (ls : Nat) (diffMin : Int)
+    (hne : xs ≠ []) (hlen : xs.length ≤ 511) (hx : ∀ x ∈ xs, P.qmin ≤ x ∧ x ≤ P.qmax)
+    (hq1 : -32768 ≤ P.qmin) (hq2 : P.qmax ≤ 32767) (hq : P.qmax = P.qmin + 255) (hz : P.zpOut = P.qmin) (hd : diffMin ≤ 0) :
+    runGraph8 P (SoftmaxKernel.expTable8 mult ls diffMin) xs =
+      .ok (SoftmaxKernel.softmaxRow8 xs mult ls diffMin P.qmin P.qmax) := by
+  cases xs with
+  | nil => exact absurd rfl hne
+  | cons x0 rest =>
+    unfold runGraph8
+    rw [lower_graph8]
+    exact Lemmas.SoftmaxRowL.run_prog8 P mult ls diffMin x0 rest hlen hx hq1 hq2 hq hz hd
+
+/-- the same with the table `generate_exp_table` produces (`SoftmaxRef.expTable mult ls`, by `C19.softmax_exp_table_spec`) and
+    TFLite's `diff_min = −CalculateInputRadius(5, left_shift)` -/
+theorem softmax8_decomposition_eq_reference_generated_table (P : Params) (xs : List Int) (mult : Int) (ls : Nat)
+    (hne : xs ≠ []) (hlen : xs.length ≤ 511) (hx : ∀ x ∈ xs, P.qmin ≤ x ∧ x ≤ P.qmax)
+    (hq1 : -32768 ≤ P.qmin) (hq2 : P.qmax ≤ 32767) (hq : P.qmax = P.qmin + 255) (hz : P.zpOut = P.qmin) :
+    runGraph8 P (SoftmaxRef.expTable mult ls) xs =
+      .ok (SoftmaxKernel.softmaxRow8 xs mult ls (-(SoftmaxRef.calculateInputRadius 5 ls)) P.qmin P.qmax) := by
+  rw [Lemmas.SoftmaxRowL.expTable_tie]
+  exact softmax8_decomposition_eq_reference P xs mult ls _ hne hlen hx hq1 hq2 hq hz
+    (by have := Lemmas.SoftmaxRowL.inputRadius_nonneg ls; omega)
+
+/-- the sum of exponentials of such a row lies in `[2^19, 2^28)` (the maximum contributes `exp(0) >> 12 = 2^19`), hence the headroom
+    in `[4, 12]` and every shift amount of the decomposition and of the reference inside its legal range -/
+theorem softmax8_sum_range (mult : Int) (ls : Nat) (diffMin mx : Int) (hd : diffMin ≤ 0) (xs : List Int) (hmx : mx ∈ xs)
+    (hlen : xs.length ≤ 511) :
+    524288 ≤ xs.foldl (fun a x => a + rdivpot (Lemmas.SoftmaxRowL.expZ mult ls diffMin mx x) 12) 0 ∧
+    xs.foldl (fun a x => a + rdivpot (Lemmas.SoftmaxRowL.expZ mult ls diffMin mx x) 12) 0 < 268435456 :=
+  Lemmas.SoftmaxRowL.sum_facts mult ls diffMin mx hd xs hmx hlen
+
 /-! ## non-vacuity: the whole program on concrete rows (kernel evaluation) -/
 
 /-- parameters of an int8 SOFTMAX with beta·scale·2^26 = 1.6·2^30 (multiplier 1717986918, left shift 1) -/
@@ -94,6 +136,15 @@ def dm8 : Int := -(SoftmaxRef.calculateInputRadius 5 1)
 example : runGraph8 P8 (SoftmaxKernel.expTable8 1717986918 1 dm8) [5, -3, 100, 127, -128, 90] =
     .ok (SoftmaxKernel.softmaxRow8 [5, -3, 100, 127, -128, 90] 1717986918 1 dm8 (-128) 127) := by decide +kernel
 example : runGraph8 P8 (SoftmaxKernel.expTable8 1717986918 1 dm8) [17] = .ok [127] := by decide +kernel
+/-- the hypotheses of the main theorem are satisfiable (an int8 row, a uint8 row) -/
+example : runGraph8 P8 (SoftmaxKernel.expTable8 1717986918 1 dm8) [5, -3, 100, 127, -128, 90] =
+    .ok (SoftmaxKernel.softmaxRow8 [5, -3, 100, 127, -128, 90] 1717986918 1 dm8 P8.qmin P8.qmax) :=
+  softmax8_decomposition_eq_reference P8 _ _ _ _ (by decide) (by decide) (by decide) (by decide) (by decide) (by decide) (by decide)
+    (by decide)
+example : runGraph8 ⟨7, 0, 255, 0⟩ (SoftmaxRef.expTable 1717986918 1) [0, 255, 250, 251] =
+    .ok (SoftmaxKernel.softmaxRow8 [0, 255, 250, 251] 1717986918 1 (-(SoftmaxRef.calculateInputRadius 5 1)) 0 255) :=
+  softmax8_decomposition_eq_reference_generated_table ⟨7, 0, 255, 0⟩ _ _ _ (by decide) (by decide) (by decide) (by decide) (by decide)
+    (by decide) (by decide)
 example : runGraph8 ⟨7, 0, 255, 0⟩ (SoftmaxKernel.expTable8 1717986918 1 dm8) [0, 255, 250, 251] =
     .ok (SoftmaxKernel.softmaxRow8 [0, 255, 250, 251] 1717986918 1 dm8 0 255) := by decide +kernel
 /-- the bound on the row length is needed: 512 equal int8 inputs give the sum of exponentials 512.0 = 2^28 in Q12.19,
@@ -104,6 +155,17 @@ example : runGraph8 ⟨7, 0, 255, 0⟩ (SoftmaxKernel.expTable8 1717986918 1 dm8
 theorem softmax8_depth512_witness :
     runGraph8 P8 (SoftmaxKernel.expTable8 1717986918 1 dm8) (List.replicate 512 7) = .ok (List.replicate 512 (-128)) ∧
     SoftmaxKernel.softmaxRow8 (List.replicate 512 7) 1717986918 1 dm8 (-128) 127 = List.replicate 512 (-127) := by
+  decide +kernel
+
+/-- the two hypotheses on the parameters are needed for the equality with this reference: (1) an output zero point other than the
+    type minimum (TFLite's `Prepare` rejects such a SOFTMAX) — the NPU adds the OFM zero point, the kernel `numeric_limits::min()`;
+    (2) a hypothetical 8-bit-wide type whose codes lie outside the int16 range — ACTIVATION_MIN/MAX are limited to int16, so the
+    max pool and the final clamp cut the values -/
+theorem softmax8_param_hypotheses_witness :
+    (runGraph8 ⟨0, -128, 127, -100⟩ (SoftmaxKernel.expTable8 1717986918 1 dm8) [3, 4] = .ok [28, 28] ∧
+      SoftmaxKernel.softmaxRow8 [3, 4] 1717986918 1 dm8 (-128) 127 = [0, 0]) ∧
+    (runGraph8 ⟨0, -40000, -39745, -40000⟩ (SoftmaxKernel.expTable8 1717986918 1 dm8) [-40000, -39990] = .ok [-32768, -32768] ∧
+      SoftmaxKernel.softmaxRow8 [-40000, -39990] 1717986918 1 dm8 (-40000) (-39745) = [-39872, -39872]) := by
   decide +kernel
 
 example : npuRecip 1234567890 = SoftmaxKernel.oneOverOnePlusX 1234567890 := by decide +kernel
